@@ -35,7 +35,7 @@ func TestCheck(t *testing.T) {
 			"(D) the real clientsets.ClientSets (1 s heartbeat, 5 s hysteresis) against a stub limiter service with TWO shards and two leaders (HTTP servers), one upstream cluster per shard, each with its own real UpstreamLimiter: the leader of one shard goes down while the other stays healthy (both directions), then recovers; probes judged by the readiness reported for that upstream before and after each probe. " +
 			"Non-trivial = the history contains at least one non-honest reply or failure; distinct = hash of (schema, step list / scenario).")
 		r.Assume("the global limit of a token-bucket schema is the pair (global qps, global burst): admissions in any window of length T are at most burst + qps*T")
-		r.Assume("replies keep the schema's type and strategy (ill-typed and empty-detail replies are outside the quantifier; empty-detail replies are run and only counted)")
+		r.Assume("ill-typed answers (item without detail, of the other type, with both details, with another strategy) are inside 'whatever the limiter server answers': judged by '<= global' and 'local while not ready / never synced' only")
 		r.Assume("token buckets only: across a switch between the local and the remote limiter object both buckets hold tokens (two buckets by design); the real-time readiness-flap / first-sync scenarios are judged against the sum of the two buckets. Max-in-flight is judged against the global max in every scenario; an excess explained by requests of both limiter objects being in flight at once has its own signature (carryover-across-local-remote-switch)")
 
 		allocatePhase(r)
@@ -69,11 +69,13 @@ func TestCheck(t *testing.T) {
 		r.Require(r.Counter("allocate_probe_remote_in_effect") > 200, "the remote limiter was hardly ever in effect during allocate probes")
 		r.Require(r.Counter("allocate_probe_local_in_effect") > 200, "the local fallback was hardly ever in effect during allocate probes")
 		r.Require(r.Counter("count_det_steps") >= 100, "too few deterministic count-strategy steps")
-		r.Require(r.Counter("carryover_cases") >= int64(r.N(20, 200)), "too few deterministic carry-over cases completed")
+		r.Require(r.Counter("carryover_cases") >= int64(r.N(20, 200)) && r.Counter("carryover_tb_cases") >= int64(r.N(10, 100)), "too few deterministic carry-over cases completed")
 		r.Require(r.Counter("multi_steps") >= int64(r.N(4000, 80000)) && r.Counter("multi_exact_quota_checks") >= int64(r.N(200, 5000)) && r.Counter("multi_probes_remote_may_be_in_effect") >= int64(r.N(1000, 20000)) &&
 			r.Counter("multi_gate_toggles") >= int64(r.N(100, 3000)) && r.Counter("multi_recreates") >= int64(r.N(40, 1000)) && r.Counter("multi_items_duplicate_name") >= int64(r.N(100, 5000)) && r.Counter("multi_items_case_variant_of_existing") >= int64(r.N(50, 2000)) &&
 			r.Counter("multi_boundary_local_0") >= int64(r.N(20, 500)) && r.Counter("multi_boundary_global_1") >= int64(r.N(20, 500)) && r.Counter("multi_boundary_global_maxint32") >= int64(r.N(20, 500)),
 			"the multi-schema phase did not exercise enough answers / gate toggles / re-creations / boundary configurations")
+		r.Require(r.Counter("allocate_probes_huge_global") >= int64(r.N(100, 2000)) && r.Counter("allocate_illtyped_no-detail")+r.Counter("allocate_illtyped_other-type")+r.Counter("allocate_illtyped_both-details")+r.Counter("allocate_illtyped_other-strategy") >= int64(r.N(150, 3000)),
+			"too few probes under huge global limits / too few ill-typed answers")
 		r.Require(r.Counter("race_rounds") >= int64(r.N(14000, 60000)), "too few answer-vs-reconfigure race rounds completed")
 		r.Require(r.Counter("idle_checks") >= int64(r.N(3, 10)), "too few idle-flow checks were decided")
 		r.Require(r.Counter("rec_recovery_checks") >= int64(r.N(10, 40)) && r.Counter("rec_fallback_checks") >= int64(r.N(8, 32)) && r.Counter("rec_fallback_limit_checks") >= int64(r.N(2, 6)), "too few outage/recovery progress checks were decided")
@@ -94,6 +96,8 @@ type allocStep struct {
 	Q     int32  `json:"quota,omitempty"`
 	B     int32  `json:"burst,omitempty"`
 	Ready bool   `json:"ready"`
+	// illtyped: which way the item deviates from the schema's type
+	Variant string `json:"variant,omitempty"`
 	// reconfig: the schema's new limits (spec update of the UpstreamCluster), applied with UpstreamLimiter.Sync
 	NL  int32 `json:"newLocal,omitempty"`
 	NG  int32 `json:"newGlobal,omitempty"`
@@ -153,8 +157,22 @@ func grantClass(cfg schemaCfg, q, b int32) string {
 	return qc
 }
 
+// hugeLimits: global limits in the upper int32 range and token-bucket rates that float32 cannot represent exactly (>= 2^24)
+var hugeLimits = []int32{math.MaxInt32, 1<<30 + 7, 1<<24 + 1, 1 << 30}
+
 func genAllocCfg(g *vkit.Rand) schemaCfg {
 	c := schemaCfg{Strategy: string(proxyv1alpha1.GlobalAllocateLimit)}
+	if g.Chance(0.04) {
+		c.G = g.PickI32(hugeLimits)
+		if g.Bool() {
+			c.Type, c.L = "maxinflight", int32(g.Range(1, 9))
+		} else {
+			c.Type, c.GB = "tokenbucket", c.G
+			c.L = int32(g.Range(20, 100))
+			c.LB = int32(g.Range(int(c.L), 200))
+		}
+		return c
+	}
 	if g.Chance(0.6) {
 		c.Type = "maxinflight"
 		c.G = int32(g.Range(2, 60))
@@ -258,8 +276,14 @@ func genAllocHistory(g *vkit.Rand, n int) *allocHistory {
 			st.Kind = "timeout"
 		case x < 88:
 			st.Kind = "unknown"
-		case x < 93:
+		case x < 92:
 			st.Kind = "stale"
+		case x < 94:
+			// "whatever the limiter server answers": an item for this schema that is not of the schema's type
+			st.Kind = "illtyped"
+			st.Variant = g.Pick([]string{"no-detail", "other-type", "both-details", "other-strategy"})
+			st.Q = genQuota(g, h.Cfg)
+			st.B = int32(g.Range(1, 200))
 		case x < 97:
 			// spec update: new limits of the same type (local <= global)
 			st.Kind = "reconfig"
@@ -279,7 +303,7 @@ func genAllocHistory(g *vkit.Rand, n int) *allocHistory {
 func (h *allocHistory) hash() uint64 {
 	s := fmt.Sprintf("%+v", h.Cfg)
 	for _, st := range h.Steps {
-		s += fmt.Sprintf("|%s,%d,%d,%v,%d,%d,%d,%d", st.Kind, st.Q, st.B, st.Ready, st.NL, st.NG, st.NLB, st.NGB)
+		s += fmt.Sprintf("|%s%s,%d,%d,%v,%d,%d,%d,%d", st.Kind, st.Variant, st.Q, st.B, st.Ready, st.NL, st.NG, st.NLB, st.NGB)
 	}
 	return vkit.Hash64(s)
 }
@@ -342,6 +366,15 @@ func probeBucket(g *gateway, cap int) (n int, t0, t1 int64) {
 		fc.Release()
 	}
 	return n, t0, t1
+}
+
+// probeCap bounds a probe: limit+extra, but never more than 400 acquisitions (limits up to 2^31-1 are generated; what a
+// capped probe cannot tell apart is not judged).
+func probeCap(limit int32, extra int) int {
+	if int64(limit)+int64(extra) > 400 {
+		return 400
+	}
+	return int(limit) + extra
 }
 
 func clampI32(v, lo, hi int32) int32 {
@@ -417,6 +450,12 @@ func runAllocHistory(r *vkit.R, h *allocHistory, g *vkit.Rand) {
 		origin     = "first-answer"
 		tainted    bool  // an exceeds-global violation was already reported for this history
 		applied    = cfg // the configuration under which the remote limiter was last synced (a delivered answer)
+		// ill-typed answers (item without detail / of the other type / with both details / with another strategy) are
+		// answers the gateway must survive: judged are only "<= global" and "local while not ready / never synced"; what
+		// exactly is in force after one of them is left open until the next well-typed grant
+		ill         string
+		ambiguous   bool
+		maybeSynced bool
 	)
 	if nontrivial {
 		r.Distinct(h.hash())
@@ -466,6 +505,37 @@ func runAllocHistory(r *vkit.R, h *allocHistory, g *vkit.Rand) {
 			gw.cs.setAllocate(func(req *proxyv1alpha1.RateLimitCondition) (*proxyv1alpha1.RateLimitCondition, error) {
 				return nil, fmt.Errorf("Put \"https://limiter/apis/proxy.kubegateway.io/v1alpha1/ratelimitconditions/x/status\": context deadline exceeded (Client.Timeout exceeded while awaiting headers)")
 			})
+		case "illtyped":
+			it := proxyv1alpha1.RateLimitItemConfiguration{Name: schemaName, Strategy: proxyv1alpha1.GlobalAllocateLimit}
+			mi := &proxyv1alpha1.MaxRequestsInflightFlowControlSchema{Max: st.Q}
+			tb := &proxyv1alpha1.TokenBucketFlowControlSchema{QPS: st.Q, Burst: st.B}
+			switch st.Variant {
+			case "other-type":
+				if isTB {
+					it.MaxRequestsInflight = mi
+				} else {
+					it.TokenBucket = tb
+				}
+			case "both-details":
+				it.MaxRequestsInflight, it.TokenBucket = mi, tb
+			case "other-strategy":
+				it = allocItem(cfg, st.Q, st.B)
+				it.Strategy = proxyv1alpha1.GlobalCountLimit
+			}
+			gw.cs.setAllocate(func(req *proxyv1alpha1.RateLimitCondition) (*proxyv1alpha1.RateLimitCondition, error) {
+				return allocReply(req, it), nil
+			})
+			ill, ambiguous = st.Variant, true
+			if st.Variant == "both-details" || st.Variant == "other-strategy" {
+				maybeSynced = true // the part that fits the schema may legitimately have been applied ...
+				if cfg.G > applied.G {
+					applied.G = cfg.G // ... and with it a raised global limit may have been propagated
+				}
+				if cfg.GB > applied.GB {
+					applied.GB = cfg.GB
+				}
+			}
+			r.Count("allocate_illtyped_"+st.Variant, 1)
 		case "unknown":
 			gw.cs.setUnknown(true)
 		case "none":
@@ -506,6 +576,7 @@ func runAllocHistory(r *vkit.R, h *allocHistory, g *vkit.Rand) {
 				origin = "later-answer"
 			}
 			synced = true
+			ill, ambiguous, maybeSynced = "", false, false
 			last = cur
 			grants = append(grants, cur)
 			applied = cfg // remoteWrapper.Sync ran: the remote limiter now knows the current global limit
@@ -534,6 +605,9 @@ func runAllocHistory(r *vkit.R, h *allocHistory, g *vkit.Rand) {
 		}
 		position := origin
 		gc := grantClass(cfg, last.q, last.b)
+		if ill != "" {
+			position, gc = "ill-typed-reply", ill
+		}
 		state := "ready-synced"
 		switch {
 		case !st.Ready:
@@ -546,7 +620,11 @@ func runAllocHistory(r *vkit.R, h *allocHistory, g *vkit.Rand) {
 
 		if !isTB {
 			var E int
-			if p := vkit.Safely(func() { E = probeInflight(gw, int(gBound)+5) }); p != nil {
+			capMI := probeCap(gBound, 5)
+			if cfg.G > 1<<20 {
+				r.Count("allocate_probes_huge_global", 1)
+			}
+			if p := vkit.Safely(func() { E = probeInflight(gw, capMI) }); p != nil {
 				r.Violation(fmt.Sprintf("C09/allocate-maxinflight/panic/admission/%s", state), fmt.Sprintf("TryAcquire/Release panicked: %v", p), h)
 				return
 			}
@@ -567,6 +645,8 @@ func runAllocHistory(r *vkit.R, h *allocHistory, g *vkit.Rand) {
 				tainted = true
 				continue // later steps: only "<= global" is judged (other clauses could be consequences of this defect)
 			case tainted:
+			case ambiguous && (state == "failing-after-sync" || (state == "never-synced" && maybeSynced)):
+				r.Count("allocate_illtyped_probes_only_global_judged", 1)
 			case state == "not-ready" || state == "never-synced":
 				if E != int(cfg.L) {
 					r.Violation(fmt.Sprintf("C09/allocate-maxinflight/fallback-not-local/%s", state),
@@ -575,13 +655,13 @@ func runAllocHistory(r *vkit.R, h *allocHistory, g *vkit.Rand) {
 				}
 			case state == "failing-after-sync":
 				// {local, last granted quota}; a last quota outside [1,global] may have been clamped either way: any value <= global
-				if last.q >= 1 && last.q <= cfg.G && E != int(cfg.L) && E != int(last.q) {
+				if last.q >= 1 && last.q <= cfg.G && int(last.q) < capMI && E != int(cfg.L) && E != int(last.q) {
 					r.Violation("C09/allocate-maxinflight/fallback-not-local/failing-after-sync",
 						fmt.Sprintf("max-in-flight schema local=%d global=%d: server failing at step %d (%s) after quota %d; effective limit %d is neither the local limit nor the last granted quota", cfg.L, cfg.G, si, st.Kind, last.q, E), trimmed(h, si))
 					return
 				}
 			default: // ready, grant delivered in this step
-				if last.q >= 1 && last.q <= cfg.G {
+				if last.q >= 1 && last.q <= cfg.G && int(last.q) < capMI {
 					r.Count("allocate_recovery_checks", 1)
 					if E != int(last.q) {
 						r.Violation(fmt.Sprintf("C09/allocate-maxinflight/quota-not-applied/%s", position),
@@ -594,7 +674,10 @@ func runAllocHistory(r *vkit.R, h *allocHistory, g *vkit.Rand) {
 		}
 
 		// token bucket: sound one-sided window bounds, per probe
-		cap := int(gbBound) + 5
+		cap := probeCap(gbBound, 5)
+		if cfg.G > 1<<20 {
+			r.Count("allocate_probes_huge_global", 1)
+		}
 		var n int
 		var t0, t1 int64
 		if p := vkit.Safely(func() { n, t0, t1 = probeBucket(gw, cap) }); p != nil {
@@ -630,6 +713,8 @@ func runAllocHistory(r *vkit.R, h *allocHistory, g *vkit.Rand) {
 			tainted = true
 			continue
 		case tainted:
+		case ambiguous && (state == "failing-after-sync" || (state == "never-synced" && maybeSynced)):
+			r.Count("allocate_illtyped_probes_only_global_judged", 1)
 		case !remoteInEffect:
 			if float64(n) > bound(cfg.L, cfg.LB) {
 				r.Violation(fmt.Sprintf("C09/allocate-tokenbucket/fallback-not-local/%s", state),
